@@ -58,6 +58,42 @@ func filerTtlFeatures(fn *ssa.Function) (string, []*ssa.If) {
 
 func runC09(c *eng.Ctx) {
 	P := c.P
+	// ---------------------------------------------------------------- (0) a rewrite restarts the clock
+	// Expiry is computed from the append time of the stored copy; on a TTL volume an upload of identical bytes must
+	// therefore be appended again (the "unchanged, skip the write" shortcut keeps the first upload's append time).
+	if fn := c.NeedFunc("weed/storage", "(*Volume).isFileUnchanged"); fn != nil {
+		var trues []ssa.Instruction
+		for _, r := range eng.Find(fn, eng.IsReturn) {
+			for _, v := range eng.Resolve(r.(*ssa.Return).Results[0]) {
+				if b, ok := eng.ConstBool(v); !ok || b {
+					trues = append(trues, r)
+					break
+				}
+			}
+		}
+		noTtl := func(cond ssa.Value) (bool, bool) {
+			b, ok := cond.(*ssa.BinOp)
+			if !ok || (b.Op != token.EQL && b.Op != token.NEQ) {
+				return false, false
+			}
+			x, y := b.X, b.Y
+			if k, isK := eng.ConstString(x); isK && k == "" {
+				x, y = y, x
+			}
+			k, isK := eng.ConstString(y)
+			call, isCall := x.(*ssa.Call)
+			if !isK || k != "" || !isCall || !eng.CalleeIs(call, "needle.TTL).String") || !(eng.MentionsField(call.Call.Args[0], "SuperBlock.Ttl") || eng.MentionsField(call.Call.Args[0], "Volume.Ttl")) {
+				return false, false
+			}
+			return true, b.Op == token.EQL
+		}
+		if len(trues) == 0 {
+			c.Undecided("GUARD-rewrite-restarts-clock", eng.FuncName(fn), fn.Pos(), "no `return true` found")
+		}
+		c.Guard("GUARD-rewrite-restarts-clock", "unchanged-shortcut-only-without-ttl", fn, eng.Entry(fn), trues, eng.PassEdges(fn, noTtl),
+			"an upload is answered 'unchanged' (and not appended) only on a volume without TTL: on a TTL volume the append time of the stored copy is what expiry is counted from")
+	}
+
 	// ---------------------------------------------------------------- (1) SIB-expiry
 	reader := c.NeedFunc("weed/storage", "(*Volume).readNeedle")
 	if reader != nil {
